@@ -240,3 +240,8 @@ package multicast
 //@   ensures [accounting] !old(p.closed) ==> p.ioc.poller.pending == old(p.ioc.poller.pending) - (old(upArmedR(p)) ? 1 : 0) - (old(upArmedW(p)) ? 1 : 0)
 //@   ensures [C13 released] !old(p.closed) && old(p.socket.fd) >= 0 ==> FDOPEN[old(p.socket.fd)] == 0
 //@   ensures [C13 nothing-else] forall k :: k != old(p.socket.fd) ==> FDOPEN[k] == old(FDOPEN[k])
+
+// --- constructor (C13): a failed NewUDPPeer leaves the descriptor table as it was ---
+//@ func NewUDPPeer
+//@   prop C13
+//@   ensures [no-leak] result1 != nil ==> (forall k :: FDOPEN[k] == old(FDOPEN[k]))
